@@ -1528,6 +1528,7 @@ sqascii_ReadBlock(ESL_SQFILE *sqfp, ESL_SQ_BLOCK *sqBlock, int max_residues, int
             return status; //surprising
           }
           //sqBlock->list->L = tmpsq->L;
+          status = eslOK;   /* as in the loop below: the EOD we just burned off is not the block's status */
         }
       }
       else if (status == eslEOD)
